@@ -21,6 +21,12 @@ structure WF (e : End) : Prop where
 /-- No sequence-number wrap on the stream `s` sends: fewer than 2^32 − 1 bytes accepted. -/
 def NoWrap (s : End) : Prop := s.acc.length + 1 < M32
 
+/-- SND.MAX: `km ≥ k` sequence numbers were in flight at most (before a go-back-N rewind), all of
+    them within the accepted stream (+ FIN). -/
+def MaxInv (s : End) (base fa k : Nat) : Prop :=
+  ∃ km, k ≤ km ∧ s.tcb.sndMax = wadd s.iss (base + fa + km) ∧ base + fa + km ≤ s.acc.length + 1 ∧
+    (base + fa + km = s.acc.length + 1 → s.tcb.finSeq.isSome = true)
+
 /-- I1: sender side. `base` bytes are acknowledged, `fa = 1` iff the FIN is acknowledged, `k`
     sequence numbers are in flight. -/
 structure SendInv (s : End) (base fa k : Nat) : Prop where
@@ -33,6 +39,7 @@ structure SendInv (s : End) (base fa k : Nat) : Prop where
   buf : (s.tcb.sendBuf = s.acc.drop base ∧ base ≤ s.acc.length) ∨ (s.tcb.abortErr ≠ none ∧ s.tcb.sendBuf = [])
   fin : ∀ fs, s.tcb.finSeq = some fs → fs = wadd s.iss s.acc.length ∧ s.tcb.wrClosed = true
   finAcked : fa = 1 → base = s.acc.length ∧ s.tcb.finSeq.isSome = true
+  mx : MaxInv s base fa k
 
 /-- I2: what is on the wire from `s`. -/
 def SegOk (s : End) (sg : Seg) : Prop :=
@@ -83,13 +90,14 @@ theorem recv_handleEstablished {cfg : Cfg} {s r : End} {rcvd : Nat} {sg : Seg}
   unfold NoWrap at hnw
   have hle := hr.le
   -- step 1: onAck touches none of the receiver fields except possibly `state`
-  have h1 : (r.tcb.onAck sg).rcvNxt = r.tcb.rcvNxt ∧ (r.tcb.onAck sg).recvBuf = r.tcb.recvBuf ∧
-      (r.tcb.onAck sg).peerFin = r.tcb.peerFin ∧ (r.tcb.onAck sg).abortErr = r.tcb.abortErr := by
+  have h1 : (r.tcb.onAck cfg.fixSndMax sg).rcvNxt = r.tcb.rcvNxt ∧ (r.tcb.onAck cfg.fixSndMax sg).recvBuf = r.tcb.recvBuf ∧
+      (r.tcb.onAck cfg.fixSndMax sg).peerFin = r.tcb.peerFin ∧
+      (r.tcb.onAck cfg.fixSndMax sg).abortErr = r.tcb.abortErr := by
     unfold Tcb.onAck
     split
     · split <;> exact ⟨rfl, rfl, rfl, rfl⟩
     · exact ⟨rfl, rfl, rfl, rfl⟩
-  generalize hta : r.tcb.onAck sg = ta at h1
+  generalize hta : r.tcb.onAck cfg.fixSndMax sg = ta at h1
   obtain ⟨ha1, ha2, ha3, ha4⟩ := h1
   -- the invariant for `ta` in place of `r.tcb`, except that `ta` may have become `closed`
   have hnxt_a : r.tcb.rcvNxt = wadd s.iss (rcvd + (if r.tcb.peerFin then 1 else 0)) := hr.nxt hopen
@@ -181,6 +189,7 @@ namespace TV.NetTcp
 structure SameSend (t t' : Tcb) : Prop where
   una : t'.sndUna = t.sndUna
   nxt : t'.sndNxt = t.sndNxt
+  mx : t'.sndMax = t.sndMax
   buf : t'.sendBuf = t.sendBuf
   fin : t'.finSeq = t.finSeq
   wr : t'.wrClosed = t.wrClosed
@@ -196,10 +205,11 @@ structure SameRecv (t t' : Tcb) : Prop where
 
 theorem SendInv.congr {s s' : End} {base fa k : Nat} (h : SendInv s base fa k)
     (ht : SameSend s.tcb s'.tcb) (hacc : s'.acc = s.acc) (hiss : s'.iss = s.iss) : SendInv s' base fa k := by
-  obtain ⟨h1, h2, h3, h4, h5, h6, h7, h8, h9⟩ := h
+  obtain ⟨h1, h2, h3, h4, h5, h6, h7, h8, h9, ⟨km, m1, m2, m3, m4⟩⟩ := h
   exact ⟨by rw [hiss]; exact h1, h2, by rw [ht.una, hiss]; exact h3, by rw [ht.nxt, hiss]; exact h4,
     by rw [hacc]; exact h5, by rw [hacc, ht.fin]; exact h6, by rw [ht.buf, hacc, ht.ab]; exact h7,
-    by rw [ht.fin, hiss, hacc, ht.wr]; exact h8, by rw [hacc, ht.fin]; exact h9⟩
+    by rw [ht.fin, hiss, hacc, ht.wr]; exact h8, by rw [hacc, ht.fin]; exact h9,
+    ⟨km, m1, by rw [ht.mx, hiss]; exact m2, by rw [hacc]; exact m3, by rw [hacc, ht.fin]; exact m4⟩⟩
 
 theorem RecvInv.congr_r {s r r' : End} {rcvd : Nat} (h : RecvInv s r rcvd)
     (ht : SameRecv r.tcb r'.tcb) (hdel : r'.del = r.del) : RecvInv s r' rcvd := by
@@ -267,21 +277,28 @@ theorem SegOk.ackSeg (s : End) (t : Tcb) (cap a b : Nat) (h1 : t.sndNxt < M32) (
 
 /-- ACK processing keeps I1 (tcp.rs:297-332): a valid cumulative ACK frees exactly the acknowledged
     prefix of `send_buf`. -/
-theorem send_ackAdvance {s : End} {base fa k : Nat} (ack : Nat) (h : SendInv s base fa k) (hnw : NoWrap s)
-    (hack : ack < M32) (hv : s.tcb.ackValid ack = true) :
+theorem send_ackAdvance {s : End} {base fa k : Nat} (fm : Bool) (ack : Nat) (h : SendInv s base fa k) (hnw : NoWrap s)
+    (hack : ack < M32) (hv : s.tcb.ackValid fm ack = true) :
     ∃ base' fa' k', SendInv { s with tcb := s.tcb.ackAdvance ack } base' fa' k' := by
   unfold NoWrap at hnw
-  obtain ⟨hiss, hfa, huna, hnxt, hbound, hfq, hbuf, hfin, hfack⟩ := h
+  obtain ⟨hiss, hfa, huna, hnxt, hbound, hfq, hbuf, hfin, hfack, ⟨km, hm1, hm2, hm3, hm4⟩⟩ := h
   have hinfl : s.tcb.inFlight = k := by
     unfold Tcb.inFlight
     rw [hnxt, huna]
     rw [wsub_wadd_wadd _ _ _ (by omega) (by omega)]
     omega
+  have hbnd : s.tcb.ackBound fm ≤ km := by
+    unfold Tcb.ackBound
+    split
+    · rw [hm2, huna, wsub_wadd_wadd _ _ _ (by omega) (by omega)]; omega
+    · rw [hinfl]; exact hm1
   unfold Tcb.ackValid at hv
-  rw [hinfl] at hv
   simp only [Bool.and_eq_true, decide_eq_true_eq] at hv
-  obtain ⟨hpos, hle⟩ := hv
+  obtain ⟨hpos, hle0⟩ := hv
+  have hle : wsub ack s.tcb.sndUna ≤ km := Nat.le_trans hle0 hbnd
+  clear hle0 hbnd
   unfold Tcb.ackAdvance
+  rw [hinfl]
   dsimp only
   generalize hacked : wsub ack s.tcb.sndUna = acked at hpos hle
   have hunalt : s.tcb.sndUna < M32 := by rw [huna]; exact wadd_lt _ _
@@ -315,11 +332,16 @@ theorem send_ackAdvance {s : End} {base fa k : Nat} (ack : Nat) (h : SendInv s b
         rw [hackeq, hfs1, wadd_wadd] at hfa'
         exact wadd_inj _ _ _ (by omega) (by omega) hfa'
       · cases hfa'
-    refine ⟨s.acc.length, 1, k - acked, hiss, by omega, ?_, ?_, ?_, ?_, ?_, ?_, ?_⟩
+    refine ⟨s.acc.length, 1, k - acked, hiss, by omega, ?_, ?_, ?_, ?_, ?_, ?_, ?_, ?_⟩
+    rotate_right
+    · exact ⟨km - acked, by omega, by show s.tcb.sndMax = _; rw [hm2]; exact congrArg (wadd s.iss) (by omega),
+        by show _ ≤ s.acc.length + 1; omega, fun _ => hsome⟩
     · show ack = _
       rw [hackeq]; congr 1
-    · show s.tcb.sndNxt = _
-      rw [hnxt]; congr 1; omega
+    · show (if acked > k then ack else s.tcb.sndNxt) = _
+      split
+      · rw [hackeq]; exact congrArg (wadd s.iss) (by omega)
+      · rw [hnxt]; exact congrArg (wadd s.iss) (by omega)
     · show _ ≤ s.acc.length + 1
       omega
     · intro _; exact hsome
@@ -345,8 +367,8 @@ theorem send_ackAdvance {s : End} {base fa k : Nat} (ack : Nat) (h : SendInv s b
       rcases Nat.lt_or_ge s.acc.length (base + acked) with hgt | hge
       · exfalso
         have htot : base + acked = s.acc.length + 1 := by omega
-        have hk : base + k = s.acc.length + 1 := by omega
-        have hq := hfq hk
+        have hk : base + 0 + km = s.acc.length + 1 := by omega
+        have hq := hm4 hk
         cases hfs : s.tcb.finSeq with
         | none => simp [hfs] at hq
         | some fs =>
@@ -357,15 +379,24 @@ theorem send_ackAdvance {s : End} {base fa k : Nat} (ack : Nat) (h : SendInv s b
             rw [hackeq, hfs1, wadd_wadd, htot]
           rw [hfa'] at this; cases this
       · exact hge
-    refine ⟨base + acked, 0, k - acked, hiss, by omega, ?_, ?_, ?_, ?_, ?_, ?_, ?_⟩
+    refine ⟨base + acked, 0, k - acked, hiss, by omega, ?_, ?_, ?_, ?_, ?_, ?_, ?_, ?_⟩
+    rotate_right
+    · refine ⟨km - acked, by omega, by show s.tcb.sndMax = _; rw [hm2]; exact congrArg (wadd s.iss) (by omega),
+        by show _ ≤ s.acc.length + 1; omega, ?_⟩
+      intro hq
+      apply hm4
+      have hq' : base + acked + 0 + (km - acked) = s.acc.length + 1 := hq
+      omega
     · show ack = _
       rw [hackeq]; simp
-    · show s.tcb.sndNxt = _
-      rw [hnxt]; congr 1; omega
+    · show (if acked > k then ack else s.tcb.sndNxt) = _
+      split
+      · rw [hackeq]; exact congrArg (wadd s.iss) (by omega)
+      · rw [hnxt]; exact congrArg (wadd s.iss) (by omega)
     · show _ ≤ s.acc.length + 1
       omega
     · intro hq
-      apply hfq
+      apply hm4
       simp only [Nat.add_zero] at hq
       omega
     · simp only [Bool.false_eq_true, if_false]
@@ -382,16 +413,16 @@ theorem send_ackAdvance {s : End} {base fa k : Nat} (ack : Nat) (h : SendInv s b
       exact hfin fs hfs
     · intro h0; cases h0
 
-theorem send_onAck {s : End} {base fa k : Nat} (sg : Seg) (h : SendInv s base fa k) (hnw : NoWrap s)
+theorem send_onAck {s : End} {base fa k : Nat} (fm : Bool) (sg : Seg) (h : SendInv s base fa k) (hnw : NoWrap s)
     (hack : sg.ack < M32) :
-    ∃ base' fa' k', SendInv { s with tcb := s.tcb.onAck sg } base' fa' k' := by
+    ∃ base' fa' k', SendInv { s with tcb := s.tcb.onAck fm sg } base' fa' k' := by
   unfold Tcb.onAck
   split
   · split
     · rename_i hv
-      obtain ⟨b', f', k', h'⟩ := send_ackAdvance sg.ack h hnw hack hv
-      exact ⟨b', f', k', h'.congr ⟨rfl, rfl, rfl, rfl, rfl, by simp [Tcb.abortErr]⟩ rfl rfl⟩
-    · exact ⟨base, fa, k, h.congr ⟨rfl, rfl, rfl, rfl, rfl, by simp [Tcb.abortErr]⟩ rfl rfl⟩
+      obtain ⟨b', f', k', h'⟩ := send_ackAdvance fm sg.ack h hnw hack hv
+      exact ⟨b', f', k', h'.congr ⟨rfl, rfl, rfl, rfl, rfl, rfl, by simp [Tcb.abortErr]⟩ rfl rfl⟩
+    · exact ⟨base, fa, k, h.congr ⟨rfl, rfl, rfl, rfl, rfl, rfl, by simp [Tcb.abortErr]⟩ rfl rfl⟩
   · exact ⟨base, fa, k, h⟩
 
 end TV.NetTcp
@@ -402,7 +433,7 @@ namespace TV.NetTcp
 theorem send_accept {s : End} {base fa k : Nat} (x : List Nat) (h : SendInv s base fa k)
     (hab : s.tcb.abortErr = none) (hwr : s.tcb.wrClosed = false) :
     SendInv { s with tcb := { s.tcb with sendBuf := s.tcb.sendBuf ++ x }, acc := s.acc ++ x } base fa k := by
-  obtain ⟨hiss, hfa, huna, hnxt, hbound, hfq, hbuf, hfin, hfack⟩ := h
+  obtain ⟨hiss, hfa, huna, hnxt, hbound, hfq, hbuf, hfin, hfack, ⟨km, hm1, hm2, hm3, hm4⟩⟩ := h
   have hnofin : s.tcb.finSeq = none := by
     cases hfs : s.tcb.finSeq with
     | none => rfl
@@ -414,7 +445,12 @@ theorem send_accept {s : End} {base fa k : Nat} (x : List Nat) (h : SendInv s ba
       have := (hfack this).2
       simp [hnofin] at this
   subst hfa0
-  refine ⟨hiss, hfa, huna, hnxt, ?_, ?_, ?_, ?_, ?_⟩
+  refine ⟨hiss, hfa, huna, hnxt, ?_, ?_, ?_, ?_, ?_, ?_⟩
+  rotate_right
+  · refine ⟨km, hm1, hm2, by simp only [List.length_append]; omega, ?_⟩
+    intro hq
+    simp only [List.length_append] at hq
+    apply hm4; omega
   · simp only [List.length_append]; omega
   · intro hq
     simp only [List.length_append] at hq
@@ -439,7 +475,7 @@ theorem send_queueFin {s : End} {base fa k : Nat} (h : SendInv s base fa k)
   rcases Tcb.queueFin_cases s.tcb with heq | ⟨hwr, heq⟩
   · rw [heq]; exact h
   · rw [heq]
-    obtain ⟨hiss, hfa, huna, hnxt, hbound, hfq, hbuf, hfin, hfack⟩ := h
+    obtain ⟨hiss, hfa, huna, hnxt, hbound, hfq, hbuf, hfin, hfack, ⟨km, hm1, hm2, hm3, hm4⟩⟩ := h
     have hnofin : s.tcb.finSeq = none := by
       cases hfs : s.tcb.finSeq with
       | none => rfl
@@ -452,7 +488,7 @@ theorem send_queueFin {s : End} {base fa k : Nat} (h : SendInv s base fa k)
         simp [hnofin] at this
     subst hfa0
     rcases hbuf with ⟨hb1, hb2⟩ | ⟨hb1, _⟩
-    · refine ⟨hiss, hfa, huna, hnxt, hbound, fun _ => rfl, Or.inl ⟨hb1, hb2⟩, ?_, ?_⟩
+    · refine ⟨hiss, hfa, huna, hnxt, hbound, fun _ => rfl, Or.inl ⟨hb1, hb2⟩, ?_, ?_, ⟨km, hm1, hm2, hm3, fun _ => rfl⟩⟩
       · intro fs hfs
         simp only [Option.some.injEq] at hfs
         subst hfs
@@ -465,11 +501,13 @@ theorem send_queueFin {s : End} {base fa k : Nat} (h : SendInv s base fa k)
 
 /-- Rewinding for go-back-N keeps I1. -/
 theorem send_rewind {s : End} {base fa k : Nat} {t' : Tcb} (h : SendInv s base fa k)
-    (hu : t'.sndUna = s.tcb.sndUna) (hn : t'.sndNxt = s.tcb.sndUna) (hb : t'.sendBuf = s.tcb.sendBuf)
+    (hu : t'.sndUna = s.tcb.sndUna) (hn : t'.sndNxt = s.tcb.sndUna) (hmx : t'.sndMax = s.tcb.sndMax)
+    (hb : t'.sendBuf = s.tcb.sendBuf)
     (hf : t'.finSeq = s.tcb.finSeq) (hw : t'.wrClosed = s.tcb.wrClosed) (ha : t'.abortErr = s.tcb.abortErr) :
     SendInv { s with tcb := t' } base fa 0 := by
-  obtain ⟨hiss, hfa, huna, hnxt, hbound, hfq, hbuf, hfin, hfack⟩ := h
-  refine ⟨hiss, hfa, by rw [hu]; exact huna, by rw [hn]; simpa using huna, by dsimp only; omega, ?_, ?_, ?_, ?_⟩
+  obtain ⟨hiss, hfa, huna, hnxt, hbound, hfq, hbuf, hfin, hfack, ⟨km, hm1, hm2, hm3, hm4⟩⟩ := h
+  refine ⟨hiss, hfa, by rw [hu]; exact huna, by rw [hn]; simpa using huna, by dsimp only; omega, ?_, ?_, ?_, ?_,
+    ⟨km, Nat.zero_le _, by rw [hmx]; exact hm2, hm3, by rw [hf]; exact hm4⟩⟩
   · intro hq
     dsimp only at hq
     rw [hf]
@@ -486,17 +524,17 @@ theorem send_retxTick {s : End} {base fa k : Nat} (a b : Nat) (h : SendInv s bas
   unfold Tcb.retxTick
   dsimp only
   split
-  · exact ⟨k, h.congr ⟨rfl, rfl, rfl, rfl, rfl, rfl⟩ rfl rfl⟩
+  · exact ⟨k, h.congr ⟨rfl, rfl, rfl, rfl, rfl, rfl, rfl⟩ rfl rfl⟩
   · split
-    · exact ⟨k, h.congr ⟨rfl, rfl, rfl, rfl, rfl, rfl⟩ rfl rfl⟩
+    · exact ⟨k, h.congr ⟨rfl, rfl, rfl, rfl, rfl, rfl, rfl⟩ rfl rfl⟩
     · split
-      · exact ⟨k, h.congr ⟨rfl, rfl, rfl, rfl, rfl, rfl⟩ rfl rfl⟩
-      · exact ⟨0, send_rewind h rfl rfl rfl rfl rfl rfl⟩
+      · exact ⟨k, h.congr ⟨rfl, rfl, rfl, rfl, rfl, rfl, rfl⟩ rfl rfl⟩
+      · exact ⟨0, send_rewind h rfl rfl rfl rfl rfl rfl rfl⟩
 
 theorem send_abort {s : End} {base fa k : Nat} (b : Bool) (h : SendInv s base fa k) :
     SendInv { s with tcb := s.tcb.abort b } base fa k := by
-  obtain ⟨hiss, hfa, huna, hnxt, hbound, hfq, hbuf, hfin, hfack⟩ := h
-  exact ⟨hiss, hfa, huna, hnxt, hbound, hfq, Or.inr ⟨Tcb.abortErr_abort _ _, rfl⟩, hfin, hfack⟩
+  obtain ⟨hiss, hfa, huna, hnxt, hbound, hfq, hbuf, hfin, hfack, ⟨km, hm1, hm2, hm3, hm4⟩⟩ := h
+  exact ⟨hiss, hfa, huna, hnxt, hbound, hfq, Or.inr ⟨Tcb.abortErr_abort _ _, rfl⟩, hfin, hfack, ⟨km, hm1, hm2, hm3, hm4⟩⟩
 
 /-- One iteration of `segment_one` keeps I1, and the segment it emits satisfies I2. -/
 theorem send_segStep {s : End} {base fa k : Nat} {mss cap port : Nat} {t' : Tcb} {sg : Seg}
@@ -505,13 +543,25 @@ theorem send_segStep {s : End} {base fa k : Nat} {mss cap port : Nat} {t' : Tcb}
     (∃ k', SendInv { s with tcb := t' } base fa k') ∧ SegOk s sg ∧ t'.rcvNxt = s.tcb.rcvNxt ∧
       t'.wrClosed = s.tcb.wrClosed := by
   unfold NoWrap at hnw
-  obtain ⟨hiss, hfa, huna, hnxt, hbound, hfq, hbuf, hfin, hfack⟩ := h
+  obtain ⟨hiss, hfa, huna, hnxt, hbound, hfq, hbuf, hfin, hfack, ⟨km, hm1, hm2, hm3, hm4⟩⟩ := h
   have hinfl : s.tcb.inFlight = k := by
     unfold Tcb.inFlight
     rw [hnxt, huna]
     rw [wsub_wadd_wadd _ _ _ (by omega) (by omega)]
     omega
   have hnxtlt : s.tcb.sndNxt < M32 := by rw [hnxt]; exact wadd_lt _ _
+  have hadv : ∀ d, base + fa + k + d ≤ s.acc.length + 1 →
+      s.tcb.advMax (wadd s.tcb.sndNxt d) = wadd s.iss (base + fa + max km (k + d)) := by
+    intro d hd
+    unfold Tcb.advMax
+    have e1 : wsub (wadd s.tcb.sndNxt d) s.tcb.sndUna = k + d := by
+      rw [hnxt, huna, wadd_wadd, wsub_wadd_wadd _ _ _ (by omega) (by omega)]; omega
+    have e2 : wsub s.tcb.sndMax s.tcb.sndUna = km := by
+      rw [hm2, huna, wsub_wadd_wadd _ _ _ (by omega) (by omega)]; omega
+    rw [e1, e2]
+    split
+    · rw [hnxt, wadd_wadd]; exact congrArg (wadd s.iss) (by omega)
+    · rw [hm2]; exact congrArg (wadd s.iss) (by omega)
   unfold Tcb.segStep at hs
   rw [hinfl] at hs
   dsimp only at hs
@@ -536,11 +586,15 @@ theorem send_segStep {s : End} {base fa k : Nat} {mss cap port : Nat} {t' : Tcb}
     have hnle : n ≤ s.tcb.sendBuf.length - k := by omega
     have hpaylen : (List.take n (List.drop k s.tcb.sendBuf)).length = n := by
       simp only [List.length_take, List.length_drop]; omega
-    refine ⟨⟨k + n, hiss, hfa, huna, ?_, ?_, ?_, Or.inl ⟨hb1, hb2⟩, hfin, hfack⟩, ?_, rfl, rfl⟩
+    refine ⟨⟨k + n, hiss, hfa, huna, ?_, ?_, ?_, Or.inl ⟨hb1, hb2⟩, hfin, hfack,
+      ⟨max km (k + n), by omega, hadv n (by omega), by show _ ≤ s.acc.length + 1; omega, ?_⟩⟩, ?_, rfl, rfl⟩
     · show wadd s.tcb.sndNxt n = _
       rw [hnxt, wadd_wadd]; congr 1; omega
     · dsimp only; omega
     · intro hq; dsimp only at hq; omega
+    · intro hq
+      have hq' : base + 0 + max km (k + n) = s.acc.length + 1 := hq
+      apply hm4; omega
     · refine ⟨hnxtlt, hrcv, ?_, ?_⟩
       · intro _
         refine ⟨base + k, by simpa using hnxt, ?_, ?_⟩
@@ -564,7 +618,8 @@ theorem send_segStep {s : End} {base fa k : Nat} {mss cap port : Nat} {t' : Tcb}
       have htot : base + fa + k = s.acc.length := by
         rw [hnxt, hfs1] at hfp
         exact wadd_inj _ _ _ (by omega) (by omega) hfp
-      refine ⟨⟨k + 1, hiss, hfa, huna, ?_, by dsimp only; omega, ?_, hbuf, hfin, hfack⟩, ?_, rfl, rfl⟩
+      refine ⟨⟨k + 1, hiss, hfa, huna, ?_, by dsimp only; omega, ?_, hbuf, hfin, hfack,
+        ⟨max km (k + 1), by omega, hadv 1 (by omega), by show _ ≤ s.acc.length + 1; omega, fun _ => by simp [hfs]⟩⟩, ?_, rfl, rfl⟩
       · show wadd s.tcb.sndNxt 1 = _
         rw [hnxt, wadd_wadd]; congr 1
       · intro _; simp [hfs]
